@@ -56,7 +56,7 @@ type Report struct {
 }
 
 func New(prop, tier string) *Report {
-	return &Report{Property: prop, Tier: tier, byID: map[string]*RuleInfo{}, Functions: map[string]bool{}, Extra: map[string]interface{}{}}
+	return &Report{Property: prop, Tier: tier, byID: map[string]*RuleInfo{}, Functions: map[string]bool{}, Extra: map[string]interface{}{}, Assumptions: []string{"go/packages loads the same files the build uses for linux/amd64 (and linux/386 in the thorough tier); third-party libraries behave as documented"}}
 }
 
 // Rule registers a rule and returns a handle.
